@@ -142,7 +142,7 @@ func runC06(c *Ctx, r *Report) {
 				before.List()...)
 		}
 	})
-	r.Floor("R-C06.1", "state changes in Join", nsc, 5)
+	r.Floor("R-C06.1", "state changes in Join", nsc, 3)
 	// may-flow for error returns after apply started
 	mf := &Flow{P: p, Fn: join, May: true, Entry: Facts{}}
 	mf.Node = func(n ast.Node, f Facts) {
@@ -224,7 +224,7 @@ func runC06(c *Ctx, r *Report) {
 				fmt.Sprintf("%s in Append is not dominated by the success of entry creation (%v) and of CanAppend (%v): a denied append leaves the entry or head in the log", sc.What, before["created"], before["allowed"]))
 		}
 	})
-	r.Floor("R-C06.4", "Entries/Next/heads changes in Append", nst, 3)
+	r.Floor("R-C06.4", "Entries/Next/heads changes in Append", nst, 2)
 	// no error return after the first such change in Append
 	am := &Flow{P: p, Fn: app, May: true, Entry: Facts{}}
 	am.Node = func(n ast.Node, f Facts) {
@@ -742,7 +742,7 @@ func c065(c *Ctx, r *Report) {
 			return true
 		})
 	})
-	r.Floor("R-C06.5", "signed-field setters in CreateEntryWithIO", nset, 2)
+	r.Floor("R-C06.5", "signed-field setters in CreateEntryWithIO", nset, 1)
 
 	preSignInputsFinal(c, r, "R-C06.5")
 
@@ -819,7 +819,7 @@ func preSignInputsFinal(c *Ctx, r *Report, rule string) {
 	}
 	sort.Strings(rl)
 	r.Tables["fields_read_by_presign"] = rl
-	r.Floor(rule, "entry fields read by the pre-sign transformation", len(reads), 3)
+	r.Floor(rule, "entry fields read by the pre-sign transformation", len(reads), 2)
 	fl := &Flow{P: p, Fn: create, May: true, Entry: Facts{}}
 	fl.Node = func(n ast.Node, f Facts) {
 		walkNoLit(n, func(nd ast.Node) bool {
@@ -855,5 +855,5 @@ func preSignInputsFinal(c *Ctx, r *Report, rule string) {
 			return true
 		})
 	})
-	r.Floor(rule, "entry setters after PreSign in CreateEntryWithIO", n, 2)
+	r.Floor(rule, "entry setters after PreSign in CreateEntryWithIO", n, 1)
 }
